@@ -89,20 +89,23 @@ def run_history(history, clock=None):
     last = None
     obs = []
     clk.set_today(clock)
-    for step in history:
-        if step[0] == 'call':
-            try:
-                importlib.import_module(step[1][0])     # so that the clock seam can be installed before the call
-            except Exception:
-                pass
-            clk.install()
-            o, last = call(step[1])
-            obs.append(o)
-        elif step[0] == 'mutate':
-            if last is not None:
-                mutate(last)
-        elif step[0] == 'clock':
-            clk.set_today(step[1])
+    # the clock answer is in force process-wide for the whole history: imports (module-level clock reads, lazily
+    # imported modules) see it as well
+    with clk.process_wide():
+        for step in history:
+            if step[0] == 'call':
+                try:
+                    importlib.import_module(step[1][0])     # so that the clock seam can be installed before the call
+                except Exception:
+                    pass
+                clk.install()
+                o, last = call(step[1])
+                obs.append(o)
+            elif step[0] == 'mutate':
+                if last is not None:
+                    mutate(last)
+            elif step[0] == 'clock':
+                clk.set_today(step[1])
     clk.set_today(None)
     return obs
 
